@@ -14,6 +14,7 @@ import (
 	"strings"
 
 	"github.com/pilosa/pilosa/roaring"
+	"verifharness/cmd/c04/codec"
 	"verifharness/vh"
 )
 
@@ -61,7 +62,7 @@ func spaced(vs []uint64) string {
 	return strings.Join(ss, " ")
 }
 
-var replacing = map[string]bool{"freeze": true, "import": true, "fill": true, "optimize": true, "reload": true, "ctrremove": true, "remove": true, "removen": true, "dremoven": true}
+var replacing = map[string]bool{"freeze": true, "import": true, "importo": true, "fill": true, "fillstep": true, "optimize": true, "reload": true, "ctrremove": true, "remove": true, "removen": true, "dremoven": true}
 var lookUsers = map[string]bool{"contains": true, "probe": true, "add": true, "dadd": true, "remove": true, "addn": true, "daddn": true, "removen": true, "dremoven": true}
 
 func nontrivial(lines []string) bool {
@@ -76,6 +77,105 @@ func nontrivial(lines []string) bool {
 		}
 	}
 	return false
+}
+
+// importLine: Pilosa-format payload, or (keys permitting) an official-format one in one of the
+// reference encoder's run modes (0 arrays/bitmaps only, 1 runs where smaller, 2 runs everywhere).
+func (g *gen) importLine(mode string) string {
+	vs := g.vals(1, 6)
+	if g.r.Chance(1, 3) {
+		ok := true
+		for _, v := range vs {
+			if v>>16 >= 65536 {
+				ok = false
+			}
+		}
+		if ok {
+			return fmt.Sprintf("importo %s %s %d", mode, vh.CSV(vs), g.r.Intn(3))
+		}
+	}
+	return "import " + mode + " " + vh.CSV(vs)
+}
+
+// nearFull: a container holding all, or all but one, of its 65536 bits, then point operations and
+// imports (array / run / bitmap payloads, both formats) that carry exactly the missing or a
+// present bit, so the "already full" / "becomes empty" shortcuts of the import updaters and the
+// kernels' boundary cases are hit.
+func (g *gen) nearFull() []string {
+	r := g.r
+	key := g.keys[0]
+	if key >= 65536 {
+		key = 1
+	}
+	base := key << 16
+	hole := uint64(r.Pick(0, 1, 7, 4096, 32767, 65534, 65535))
+	var lines []string
+	switch r.Intn(4) {
+	case 0:
+		lines = append(lines, fmt.Sprintf("fill set %d 0 65535", key), fmt.Sprintf("remove %d", base|hole))
+	case 1:
+		lines = append(lines, fmt.Sprintf("fill set %d 0 65534", key))
+		hole = 65535
+	case 2:
+		lines = append(lines, fmt.Sprintf("fill set %d 1 65535", key))
+		hole = 0
+	default:
+		lines = append(lines, fmt.Sprintf("fill set %d 0 65535", key))
+	}
+	big := 0
+	n := r.Range(4, 8)
+	for i := 0; i < n; i++ {
+		lo, hi := hole, hole
+		if lo > 0 {
+			lo--
+		}
+		if hi < 65535 {
+			hi++
+		}
+		switch r.Intn(16) {
+		case 0:
+			lines = append(lines, fmt.Sprintf("import set %d", base|hole))
+		case 1:
+			lines = append(lines, fmt.Sprintf("importo set %d %d", base|hole, r.Intn(3)))
+		case 2:
+			lines = append(lines, fmt.Sprintf("fill set %d %d %d", key, lo, hi))
+		case 3:
+			lines = append(lines, fmt.Sprintf("importo set %d,%d,%d 2", base|lo, base|hole, base|hi))
+		case 4:
+			lines = append(lines, fmt.Sprintf("add %d", base|hole))
+		case 5:
+			lines = append(lines, fmt.Sprintf("addn %d %d %d", base|hole, base|hole, base|lo))
+		case 6:
+			lines = append(lines, fmt.Sprintf("remove %d", base|hole))
+		case 7:
+			lines = append(lines, fmt.Sprintf("import clear %d", base|hole))
+		case 8:
+			lines = append(lines, fmt.Sprintf("importo clear %d,%d 2", base|hole, base|hi))
+		case 9:
+			lines = append(lines, fmt.Sprintf("removen %d %d", base|hole, base|hole))
+		case 10:
+			lines = append(lines, fmt.Sprintf("contains %d", base|hole), "look")
+		case 11:
+			lines = append(lines, r.PickS("optimize", "reload", "freeze"))
+		case 12:
+			if big < 2 {
+				big++
+				// bitmap payload: every second value, the half that holds the hole
+				lines = append(lines, fmt.Sprintf("fillstep %s %d %d 65535 2", r.PickS("set", "set", "clear"), key, hole%2))
+			}
+		case 13:
+			if big < 2 {
+				big++
+				lines = append(lines, fmt.Sprintf("fill %s %d 0 65535", r.PickS("set", "clear"), key))
+			}
+		case 14:
+			hole = uint64(r.Pick(0, 1, 7, 4096, 32767, 65534, 65535))
+			lines = append(lines, fmt.Sprintf("remove %d", base|hole))
+		case 15:
+			lines = append(lines, fmt.Sprintf("probe %d %d %d", base|lo, base|hole, base|hi))
+		}
+	}
+	return lines
 }
 
 func (g *gen) line() string {
@@ -96,9 +196,9 @@ func (g *gen) line() string {
 	case w < 49:
 		return "dremoven " + spaced(g.vals(0, 5))
 	case w < 60:
-		return "import set " + vh.CSV(g.vals(1, 6))
+		return g.importLine("set")
 	case w < 71:
-		return "import clear " + vh.CSV(g.vals(1, 6))
+		return g.importLine("clear")
 	case w < 78:
 		return "optimize"
 	case w < 80:
@@ -160,6 +260,9 @@ func (p *prop) Gen(r *vh.Rng, tier string, n int) []vh.Case {
 				}
 			}
 			vh.Count("scenario:threshold")
+		} else if cr.Chance(1, 40) {
+			lines = append(lines, g.nearFull()...)
+			vh.Count("scenario:nearfull")
 		}
 		nl := cr.Range(6, 40)
 		if tier == "thorough" && cr.Chance(1, 10) {
@@ -259,6 +362,67 @@ func payload(vals []uint64) ([]byte, bool) {
 	return buf.Bytes(), true
 }
 
+// officialPayload encodes vals (keys < 65536) with the reference encoder of the official format
+// and checks with the real decoder that it holds exactly vals.
+func officialPayload(mode int, vals []uint64) ([]byte, bool) {
+	want := sortedSet(vals)
+	var es []codec.Entry
+	for _, v := range want {
+		k := v >> 16
+		if k >= 65536 {
+			return nil, false
+		}
+		if len(es) == 0 || es[len(es)-1].Key != k {
+			es = append(es, codec.Entry{Key: k, Typ: 'a'})
+		}
+		es[len(es)-1].Vals = append(es[len(es)-1].Vals, uint16(v))
+	}
+	data := codec.OfficialEncode(mode, es)
+	chk := roaring.NewBTreeBitmap()
+	if err := chk.UnmarshalBinary(append([]byte(nil), data...)); err != nil {
+		return nil, false
+	}
+	if vh.U64s(chk.Slice()) != vh.U64s(want) {
+		return nil, false
+	}
+	return data, true
+}
+
+func sortedSet(vals []uint64) []uint64 {
+	want := vh.SortedU64(vals)
+	j := 0
+	for i, v := range want {
+		if i == 0 || v != want[i-1] {
+			want[j] = v
+			j++
+		}
+	}
+	return want[:j]
+}
+
+// payloadKinds names the container encodings a payload holds (by decoding it), e.g. "pilosa:run".
+func payloadKinds(data []byte) string {
+	chk := roaring.NewBTreeBitmap()
+	if err := chk.UnmarshalBinary(append([]byte(nil), data...)); err != nil {
+		return "undecodable"
+	}
+	kinds := map[string]bool{}
+	for _, ci := range chk.Info().Containers {
+		kinds[ci.Type] = true
+	}
+	var ks []string
+	for _, k := range []string{"array", "bitmap", "run"} {
+		if kinds[k] {
+			ks = append(ks, k)
+		}
+	}
+	f := "official"
+	if len(data) >= 2 && data[0] == 0x3c && data[1] == 0x30 {
+		f = "pilosa"
+	}
+	return f + ":" + strings.Join(ks, "+")
+}
+
 type state struct {
 	b    *roaring.Bitmap
 	kind string
@@ -342,10 +506,23 @@ func (s *state) exec(l string) string {
 			return "bad-op"
 		}
 		return "b=" + showBool(b.DirectAdd(vals[0])) + " | " + obs(b)
-	case "import", "fill":
+	case "import", "importo", "fill", "fillstep":
 		var vals []uint64
 		var clear bool
-		if ws[0] == "import" {
+		official := -1
+		if ws[0] == "import" || ws[0] == "importo" {
+			if ws[0] == "importo" {
+				// official roaring format; trailing token = run mode of the reference encoder
+				if len(ws) != 4 {
+					return "bad-op"
+				}
+				m, err := strconv.Atoi(ws[3])
+				if err != nil || m < 0 || m > 2 {
+					return "bad-op"
+				}
+				official = m
+				ws = ws[:3]
+			}
 			if len(ws) != 3 || (ws[1] != "set" && ws[1] != "clear") {
 				return "bad-op"
 			}
@@ -358,14 +535,25 @@ func (s *state) exec(l string) string {
 			}
 			clear = ws[1] == "clear"
 		} else {
-			if len(ws) != 5 || (ws[1] != "set" && ws[1] != "clear") {
+			want := 5
+			if ws[0] == "fillstep" {
+				want = 6
+			}
+			if len(ws) != want || (ws[1] != "set" && ws[1] != "clear") {
 				return "bad-op"
 			}
 			a, ok := parseVals(ws[2:])
 			if !ok {
 				return "bad-op"
 			}
-			for x := a[1]; x <= a[2] && x < 65536; x++ {
+			step := uint64(1)
+			if ws[0] == "fillstep" {
+				step = a[3]
+				if step == 0 || a[1] > a[2] {
+					return "bad-op"
+				}
+			}
+			for x := a[1]; x <= a[2] && x < 65536; x += step {
 				vals = append(vals, a[0]<<16|x)
 			}
 			clear = ws[1] == "clear"
@@ -374,14 +562,25 @@ func (s *state) exec(l string) string {
 				return "n=0 | " + obs(b)
 			}
 		}
-		data, ok := payload(vals)
+		var data []byte
+		ok := false
+		if official >= 0 {
+			data, ok = officialPayload(official, vals)
+		} else {
+			data, ok = payload(vals)
+		}
 		if !ok {
 			return "err:payload"
 		}
+		vh.Count("payload:" + payloadKinds(data))
+		orig := append([]byte(nil), data...)
 		s.keep = append(s.keep, data)
 		n, _, err := b.ImportRoaringBits(data, clear, false, 0)
 		if err != nil {
 			return "err:import"
+		}
+		if !bytes.Equal(orig, data) {
+			return "err:payload-buffer-modified"
 		}
 		return fmt.Sprintf("n=%d | %s", n, obs(b))
 	case "optimize":
